@@ -151,6 +151,40 @@ func c20(r *Report) {
 						}
 					}
 				}
+				if cl == nil {
+					// a store that does not dominate the body but lies on every feasible way to it (the
+					// length is set in the success arm of a helper whose failure arm is left by the
+					// error test that follows): searched from the nearest block dominating both
+					for _, in2 := range instrs(f) {
+						s2, ok := in2.(*ssa.Store)
+						if !ok || msgFieldAddr(s2.Addr, "ContentLength") == nil || !reachesAvoiding(s2.Block(), st.Block(), nil) {
+							continue
+						}
+						d := st.Block()
+						for d != nil && !(d.Dominates(s2.Block()) && d != st.Block()) {
+							d = d.Idom()
+						}
+						if d == nil {
+							continue
+						}
+						paths, okP := blockPathsUntil(d, st.Block(), 200)
+						all := okP && len(paths) > 0
+						for _, p := range paths {
+							through := false
+							for _, b := range p {
+								if b == s2.Block() {
+									through = true
+								}
+							}
+							if !through {
+								all = false
+							}
+						}
+						if all {
+							cl = s2
+						}
+					}
+				}
 				r.Sites++
 				if content == nil {
 					// the file itself: length is info.Size()
